@@ -153,7 +153,7 @@ CHECKS = {
         category="fault_enumeration",
         engine="E5-process-fault-injector (vf/c10_*.py + joblib/_verif_hooks.py)",
         technique="exhaustive enumeration of kill instants x signals x victims x call histories on real loky processes, kill instants pinned by guarded hook points inside the vendored loky code",
-        text="Real Parallel(backend='loky') scenarios in isolated sessions: a worker (the first to arrive, or every one) dies by SIGKILL / SIGTERM / SIGSEGV / os._exit at one of eight instants of the task life-cycle (argument unpickling, after fetching the task, task start, mid-task, after the run, during result pickling, mid-send with half a frame written under the queue lock, after the send) or while idle between calls, for histories fault-ok, fault-fault-ok, ok-fault-ok-ok, ok-idle-ok-ok, with and without a with block, list and generator outputs. Oracle: every call returns within 20 s with exactly the expected results or a BrokenProcessPool-family error, never more failed calls than faults, the second call after a fault succeeds.",
+        text="Real Parallel(backend='loky') scenarios in isolated sessions: a worker (the first to arrive, or every one) dies by SIGKILL / SIGTERM / SIGSEGV / os._exit at one of eight instants of the task life-cycle (argument unpickling, after fetching the task, task start, mid-task, after the run, during result pickling, mid-send with half a frame written under the queue lock, after the send), while idle between calls, or during the next call's start-up (parent-side points: executor re-use check, resize entry, while surplus workers leave, after new workers were spawned; n_jobs growing / shrinking / unchanged), for histories fault-ok, fault-fault-ok, ok-fault-ok-ok, ok-idle-ok-ok, with and without a with block, list and generator outputs. Oracle: every call returns within 20 s with exactly the expected results or a BrokenProcessPool-family error, never more failed calls than faults, the second call after a fault succeeds.",
         note="Real processes: the enumerated dimensions are covered exhaustively, the OS schedule inside a scenario is not controlled; a watchdog verdict is re-run once before being reported. The mid-send hang is a known finding. Requires the guarded hook commit in /repo (JOBLIB_VERIF_HOOKS).",
         design_ref="1.5, 2/C10, 3",
     ),
@@ -217,7 +217,7 @@ def build():
     return man
 
 
-HOOK_COMMITS = ['265f468']
+HOOK_COMMITS = ['265f468', '1aeafac']
 NOT_APPLICABLE = {}
 ENGINES = [
     {"name": "E1-pysched", "path": "vf/pysched.py", "serves_properties": ["C01", "C04", "C09", "C16", "C17", "C11"],
